@@ -281,15 +281,23 @@ theorem findOrCreate_inv (hm : Xfer → F) (s0 s1 : MSt F) (now : Int) (name : N
     (s1.props.map (·.ref)).Nodup ∧ (∀ q ∈ s1.props, q.serial < s1.nextSerial) ∧
     (∀ q ∈ s1.props, q.ref ≠ p.ref → POk hm s0.wallets q) ∧
     (p.entries = [] ∧ p.executed = none ∧ p.transfer.src = p.wallet ∨ POk hm s0.wallets p) ∧
-    s0.nextSerial ≤ s1.nextSerial := by
+    s0.nextSerial ≤ s1.nextSerial ∧
+    (∀ q ∈ s1.props, q ∈ s0.props ∨ (q = p ∧ p.serial = s0.nextSerial ∧ p.executed = none)) := by
   rcases findOrCreate_ok s0 s1 now name t p h with ⟨hf, hexp, hs⟩ | ⟨hf, hp, hs⟩
   · subst hs
     obtain ⟨hmem, href⟩ := findProp_mem _ _ _ hf
-    exact ⟨rfl, hmem, href, hexp, hinv.refs, hinv.serials, fun q hq _ => hinv.props q hq, Or.inr (hinv.props p hmem), Nat.le_refl _⟩
+    exact ⟨rfl, hmem, href, hexp, hinv.refs, hinv.serials, fun q hq _ => hinv.props q hq, Or.inr (hinv.props p hmem), Nat.le_refl _,
+      fun q hq => Or.inl hq⟩
   · have hnone := findProp_none _ _ hf
     have href : p.ref = (t.src, name) := by rw [hp]; rfl
     subst hs
-    refine ⟨rfl, by simp, href, ?_, ?_, ?_, ?_, Or.inl ?_, by simp⟩
+    refine ⟨rfl, by simp, href, ?_, ?_, ?_, ?_, Or.inl ?_, by simp, ?_⟩
+    rotate_left 5
+    · intro q hq
+      rcases List.mem_append.mp hq with hq | hq
+      · exact Or.inl hq
+      · simp only [List.mem_cons, List.not_mem_nil, or_false] at hq
+        exact Or.inr ⟨hq, by rw [hp], by rw [hp]⟩
     · rw [hp]; simp [expirationTime]
     · simp only [List.map_append, List.map_cons, List.map_nil]
       rw [List.nodup_append]
@@ -311,11 +319,36 @@ theorem findOrCreate_inv (hm : Xfer → F) (s0 s1 : MSt F) (now : Int) (name : N
         exact absurd (by rw [hq]) hne
     · rw [hp]; exact ⟨rfl, rfl, rfl⟩
 
-theorem inv_vote (hm : Xfer → F) (s : MSt F) (sender : Id) (now : Int) (txn : Nat) (v : VoteIn F) (o : VoteOut F)
-    (hinv : Inv hm s) (h : vote hm s sender now txn v = .ok o) : Inv hm o.st ∧ o.st.wallets = s.wallets := by
-  obtain ⟨name, t, sig, s1, p, _, h2, hct, hcase⟩ := vote_ok hm s sender now txn v o h
+/-- what a successful contract-level vote does to the stored records (`p` = the record voted on, before). -/
+structure VoteFacts (s : MSt F) (txn : Nat) (v : VoteIn F) (o : VoteOut F) (p : Proposal F) : Prop where
+  serialMono : s.nextSerial ≤ o.st.nextSerial
+  origin : p ∈ s.props ∨ p.serial = s.nextSerial
+  records : ∀ q ∈ o.st.props, q ∈ s.props ∨ (q.ref = p.ref ∧ q.serial = p.serial ∧ p.executed = none)
+  target : ∃ name sig tb, v = .vote name p.transfer sig tb ∧ p.ref = (p.transfer.src, name)
+  executed : o.res = .executed → p.executed = none ∧
+    o.signed = [{ src := p.transfer.src, dst := p.transfer.dst, amount := p.transfer.amount }] ∧
+    ∃ q ∈ o.st.props, q.ref = p.ref ∧ q.serial = p.serial ∧ q.executed = some txn ∧ q.transfer = p.transfer ∧ q.expires = p.expires
+  notExecuted : o.res ≠ .executed → o.signed = []
+
+theorem vote_spec (hm : Xfer → F) (s : MSt F) (sender : Id) (now : Int) (txn : Nat) (v : VoteIn F) (o : VoteOut F)
+    (hinv : Inv hm s) (h : vote hm s sender now txn v = .ok o) :
+    Inv hm o.st ∧ o.st.wallets = s.wallets ∧ ∃ p, VoteFacts s txn v o p := by
+  obtain ⟨name, t, sig, s1, p, hchk, h2, hct, hcase⟩ := vote_ok hm s sender now txn v o h
   have hinv0 := inv_pruneHead hm s now hinv
-  obtain ⟨hws, hpmem, href, hexp, hrefs, hser, hothers, hp, _⟩ := findOrCreate_inv hm _ s1 now name t p hinv0 h2
+  obtain ⟨hws, hpmem, href, hexp, hrefs, hser, hothers, hp, hmono, hrecs⟩ := findOrCreate_inv hm _ s1 now name t p hinv0 h2
+  have hmono' : s.nextSerial ≤ s1.nextSerial := by rw [← pruneHead_nextSerial s now]; exact hmono
+  have horigin : p ∈ s.props ∨ p.serial = s.nextSerial := by
+    rcases hrecs p hpmem with h' | ⟨_, h', _⟩
+    · exact Or.inl (mem_pruneHead_props s now p h')
+    · exact Or.inr (by rw [h', pruneHead_nextSerial])
+  have hrecs1 : ∀ q ∈ s1.props, q ∈ s.props ∨ (q.ref = p.ref ∧ q.serial = p.serial ∧ p.executed = none) := by
+    intro q hq
+    rcases hrecs q hq with h' | ⟨h', _, hn⟩
+    · exact Or.inl (mem_pruneHead_props s now q h')
+    · exact Or.inr ⟨by rw [h'], by rw [h'], hn⟩
+  have htarget : ∃ name sig tb, v = .vote name p.transfer sig tb ∧ p.ref = (p.transfer.src, name) := by
+    obtain ⟨hv, _⟩ := voteChecks_ok v name t sig hchk
+    exact ⟨name, sig, false, by rw [← hct]; exact hv, by rw [← hct]; exact href⟩
   have hws' : s1.wallets = s.wallets := by rw [hws, pruneHead_wallets]
   have hw0 : (pruneHead now s).wallets = s.wallets := pruneHead_wallets s now
   -- the state `s1` itself satisfies the invariant when the proposal is an old one
@@ -326,7 +359,12 @@ theorem inv_vote (hm : Xfer → F) (s : MSt F) (sender : Id) (now : Int) (txn : 
       rcases hp with ⟨_, hn, _⟩ | hp
       · rw [hn] at hex; simp at hex
       · exact hp
-    refine ⟨⟨?_, ?_, hrefs, hser⟩, hws'⟩
+    have hold1 : ∀ q ∈ s1.props, q ∈ s.props := by
+      intro q hq
+      rcases hrecs q hq with h' | ⟨_, _, hn⟩
+      · exact mem_pruneHead_props s now q h'
+      · rw [hn] at hex; simp at hex
+    refine ⟨⟨?_, ?_, hrefs, hser⟩, hws', p, ⟨hmono', horigin, fun q hq => Or.inl (hold1 q hq), htarget, (by intro hx; cases hx), fun _ => rfl⟩⟩
     · intro w hw; rw [hws'] at hw; exact hinv.wallets w hw
     · intro q hq
       rw [hws]
@@ -385,7 +423,7 @@ theorem inv_vote (hm : Xfer → F) (s : MSt F) (sender : Id) (now : Int) (txn : 
     rcases castVote_ok s1 w p sg σ sender now txn o hcast with ⟨hdupAny, ho⟩ | ⟨hnd, hrem, ho⟩ | ⟨hnd, hrem, cs, hrec, ho⟩
     · -- duplicate: nothing stored; `p` is an old record (it has an entry)
       subst ho
-      refine ⟨⟨?_, ?_, hrefs, hser⟩, hws'⟩
+      refine ⟨⟨?_, ?_, hrefs, hser⟩, hws', p, ⟨hmono', horigin, hrecs1, htarget, (by intro hx; cases hx), fun _ => rfl⟩⟩
       · intro w' hw'; rw [hws'] at hw'; exact hinv.wallets w' hw'
       · intro q hq
         show POk hm s1.wallets q
@@ -398,7 +436,13 @@ theorem inv_vote (hm : Xfer → F) (s : MSt F) (sender : Id) (now : Int) (txn : 
           · exact hp
         · exact hothers q hq hqr
     · subst ho
-      refine ⟨hput _ rfl rfl ?_, hws'⟩
+      have hrecs2 : ∀ q ∈ putProp s1.props (withVote p (newEntry sg σ sender now)),
+          q ∈ s.props ∨ (q.ref = p.ref ∧ q.serial = p.serial ∧ p.executed = none) := by
+        intro q hq
+        rcases mem_putProp _ _ _ hq with hq | ⟨hq, _⟩
+        · rw [hq]; exact Or.inr ⟨rfl, rfl, hnone⟩
+        · exact hrecs1 q hq
+      refine ⟨hput _ rfl rfl ?_, hws', p, ⟨hmono', horigin, hrecs2, htarget, (by intro hx; cases hx), fun _ => rfl⟩⟩
       unfold withVote
       refine ⟨hsrc, ⟨w, hfw0, ?_, ?_, ?_⟩, ?_⟩
       · intro e he
@@ -419,7 +463,15 @@ theorem inv_vote (hm : Xfer → F) (s : MSt F) (sender : Id) (now : Int) (txn : 
         have hne := List.any_eq_false.mp hnd e he
         exact absurd (show e.tid = sg.tid from heq) (by simpa using hne)
     · subst ho
-      refine ⟨hput _ rfl rfl ?_, hws'⟩
+      have hrecs2 : ∀ q ∈ putProp s1.props (executedWith p (newEntry sg σ sender now) cs txn),
+          q ∈ s.props ∨ (q.ref = p.ref ∧ q.serial = p.serial ∧ p.executed = none) := by
+        intro q hq
+        rcases mem_putProp _ _ _ hq with hq | ⟨hq, _⟩
+        · rw [hq]; exact Or.inr ⟨rfl, rfl, hnone⟩
+        · exact hrecs1 q hq
+      refine ⟨hput _ rfl rfl ?_, hws', p, ⟨hmono', horigin, hrecs2, htarget,
+        fun _ => ⟨hnone, rfl, executedWith p (newEntry sg σ sender now) cs txn, mem_putProp_self _ _, rfl, rfl, rfl, rfl, rfl⟩,
+        fun hne => absurd rfl hne⟩⟩
       unfold executedWith
       refine ⟨hsrc, ⟨w, hfw0, ?_, ?_, ?_⟩, ?_⟩
       · intro e he
@@ -442,6 +494,10 @@ theorem inv_vote (hm : Xfer → F) (s : MSt F) (sender : Id) (now : Int) (txn : 
         intro heq
         have hne := List.any_eq_false.mp hnd e he
         exact absurd (show e.tid = sg.tid from heq) (by simpa using hne)
+
+theorem inv_vote (hm : Xfer → F) (s : MSt F) (sender : Id) (now : Int) (txn : Nat) (v : VoteIn F) (o : VoteOut F)
+    (hinv : Inv hm s) (h : vote hm s sender now txn v = .ok o) : Inv hm o.st ∧ o.st.wallets = s.wallets :=
+  ⟨(vote_spec hm s sender now txn v o hinv h).1, (vote_spec hm s sender now txn v o hinv h).2.1⟩
 
 /-! ### registration -/
 
@@ -486,23 +542,43 @@ theorem register_ok (s s' : MSt F) (sender : Id) (r : Option (RegIn F)) (h : reg
   | none => simp at h
   | some r =>
     simp only at h
-    repeat' split at h
-    all_goals first
-      | (exact absurd h (by simp))
-      | skip
-    rename_i h1 h2 h3 h4 h5 h6 h7 h8 h9 _ sg hsg h10
-    simp only [Except.ok.injEq] at h
-    obtain ⟨htid, hlen⟩ := mkSigners_spec _ _ _ hsg
-    refine ⟨_, h.symm, ⟨?_, ?_, ?_⟩, by simpa using h1, ?_⟩
-    · show (sg.map (·.tid)).Nodup
-      rw [htid]; exact nodup_of_hasDupBy_false _ (by simpa using h7)
-    · show 2 ≤ r.numRequired
-      unfold minSigners at h5; omega
-    · show r.numRequired ≤ (sg.length : Int)
-      rw [hlen]; omega
-    · cases hf : findWallet s.wallets sender with
-      | none => rfl
-      | some w => simp [hf] at h10
+    by_cases h1 : r.clientId ≠ sender
+    · simp [h1] at h
+    by_cases h2 : r.pkOwner ≠ some r.clientId
+    · simp [h1, h2] at h
+    by_cases h3 : r.tids.length ≠ r.keys.length
+    · simp [h1, h2, h3] at h
+    by_cases h4 : r.tids.length > maxSigners
+    · simp [h1, h2, h3, h4] at h
+    by_cases h5 : r.numRequired < minSigners
+    · simp [h1, h2, h3, h4, h5] at h
+    by_cases h6 : r.numRequired > r.tids.length
+    · simp [h1, h2, h3, h4, h5, h6] at h
+    by_cases h7 : hasDupBy (fun a b => a.1 == b.1) r.tids = true
+    · simp [h1, h2, h3, h4, h5, h6, h7] at h
+    by_cases h8 : hasDupBy KeyTok.same r.keys = true
+    · simp [h1, h2, h3, h4, h5, h6, h7, h8] at h
+    by_cases h9 : (!r.schemeOk) = true
+    · simp [h1, h2, h3, h4, h5, h6, h7, h8, h9] at h
+    simp only [h1, h2, h3, h4, h5, h6, h7, h8, h9, if_false, Bool.false_eq_true] at h
+    cases hsg : mkSigners r.tids r.keys with
+    | none => simp [hsg] at h
+    | some sg =>
+      simp only [hsg] at h
+      by_cases h10 : (findWallet s.wallets sender).isSome = true
+      · simp [h10] at h
+      simp only [h10, Bool.false_eq_true, if_false, Except.ok.injEq] at h
+      obtain ⟨htid, hlen⟩ := mkSigners_spec _ _ _ hsg
+      refine ⟨_, h.symm, ⟨?_, ?_, ?_⟩, by simpa using h1, ?_⟩
+      · show (sg.map (·.tid)).Nodup
+        rw [htid]; exact nodup_of_hasDupBy_false _ (by simpa using h7)
+      · show 2 ≤ r.numRequired
+        unfold minSigners at h5; omega
+      · show r.numRequired ≤ (sg.length : Int)
+        rw [hlen]; omega
+      · cases hf : findWallet s.wallets sender with
+        | none => rfl
+        | some w => simp [hf] at h10
 
 theorem inv_register (hm : Xfer → F) (s s' : MSt F) (sender : Id) (r : Option (RegIn F))
     (hinv : Inv hm s) (h : register s sender r = .ok s') : Inv hm s' := by
@@ -523,35 +599,35 @@ theorem inv_register (hm : Xfer → F) (s s' : MSt F) (sender : Id) (r : Option 
 keeps the contract state). -/
 theorem inv_step (hm : Xfer → F) (feeOn : Bool) (s : MSt F) (op : Op F) (hinv : Inv hm s) :
     Inv hm (stepOp hm feeOn s op).1 := by
+  have key : ∀ (c : Call) (r : Option (MSt F × List Ledger.Transfer)),
+      (∀ s' q, r = some (s', q) → Inv hm s') → Inv hm (settleMs feeOn s c r).1 := by
+    intro c r hr
+    by_cases hs : (settleMs feeOn s c r).2 = .success
+    · obtain ⟨s', q, a', hr', _, _, hst⟩ := settleMs_success feeOn s c r hs
+      rw [hst]; exact inv_accts hm _ _ (hr s' q hr')
+    · obtain ⟨a', hst⟩ := settleMs_not_success feeOn s c r hs
+      rw [hst]; exact inv_accts hm _ _ hinv
   cases op with
   | register c r =>
     show Inv hm (registerStep feeOn s c r).1
     unfold registerStep
-    by_cases hs : (settleMs feeOn s c (match register s c.sender r with | .error _ => none | .ok s' => some (s', []))).2 = .success
-    · obtain ⟨s', q, a', hr, _, _, hst⟩ := settleMs_success feeOn s c _ hs
-      rw [hst]
-      cases hreg : register s c.sender r with
-      | error e => simp [hreg] at hr
-      | ok s2 =>
-        simp only [hreg, Option.some.injEq, Prod.mk.injEq] at hr
-        rw [← hr.1]
-        exact inv_accts hm _ _ (inv_register hm s s2 c.sender r hinv hreg)
-    · obtain ⟨a', hst⟩ := settleMs_not_success feeOn s c _ hs
-      rw [hst]; exact inv_accts hm _ _ hinv
+    apply key
+    intro s' q hr
+    cases hreg : register s c.sender r with
+    | error e => simp [hreg] at hr
+    | ok s2 =>
+      simp only [hreg, Option.some.injEq, Prod.mk.injEq] at hr
+      rw [← hr.1]; exact inv_register hm s s2 c.sender r hinv hreg
   | vote c now txn v =>
     show Inv hm (voteStep hm feeOn s c now txn v).1
     unfold voteStep
-    by_cases hs : (settleMs feeOn s c (match vote hm s c.sender now txn v with | .error _ => none | .ok o => some (o.st, o.signed))).2 = .success
-    · obtain ⟨s', q, a', hr, _, _, hst⟩ := settleMs_success feeOn s c _ hs
-      rw [hst]
-      cases hv : vote hm s c.sender now txn v with
-      | error e => simp [hv] at hr
-      | ok o =>
-        simp only [hv, Option.some.injEq, Prod.mk.injEq] at hr
-        rw [← hr.1]
-        exact inv_accts hm _ _ (inv_vote hm s c.sender now txn v o hinv hv).1
-    · obtain ⟨a', hst⟩ := settleMs_not_success feeOn s c _ hs
-      rw [hst]; exact inv_accts hm _ _ hinv
+    apply key
+    intro s' q hr
+    cases hv : vote hm s c.sender now txn v with
+    | error e => simp [hv] at hr
+    | ok o =>
+      simp only [hv, Option.some.injEq, Prod.mk.injEq] at hr
+      rw [← hr.1]; exact (inv_vote hm s c.sender now txn v o hinv hv).1
 
 /-- every state reachable from an empty contract state satisfies the invariant. -/
 theorem inv_run (hm : Xfer → F) (feeOn : Bool) (ops : List (Op F)) : ∀ s, Inv hm s → Inv hm (runOps hm feeOn s ops) := by
